@@ -14,6 +14,8 @@ git -C /repo worktree add -q --detach "$wt" HEAD || { echo "{\"id\":\"$id/$x\",\
 cleanup() { git -C /repo worktree remove --force "$wt" >/dev/null 2>&1; rm -rf "$wt"; }
 trap cleanup EXIT
 case "$id" in C18) pkgdir=db ;; C19|C20) pkgdir=v2 ;; *) pkgdir=. ;; esac
+# a change to the v2 module is demonstrated and tested there
+grep -q '^+++ b/v2/' "$patch" && pkgdir=v2
 cp /repo/cmd/legacydump/legacydump "$wt/cmd/legacydump/legacydump" 2>/dev/null
 cd "$wt"
 applies=true
